@@ -841,6 +841,49 @@ def round_trip(obs, case, regs, specs):
     ok = len(r1b) == len(fps) and all(S.fingerprint(r) == f for r, f in zip(r1b, fps))
     obs.check(ok, 'parse-depends-on-edits-to-earlier-results', 'parsing the same text again after editing the first parse\'s regions in place gives different regions',
               'parse-history')
+    # a parsed region is an ordinary region: after edits to its meta / text, serialising writes the edited state
+    # (nothing that the reader kept on the side may come back)
+    _STAGE[0] = 'parse'
+    r1c = _parse(s1)
+    expect = []
+    for k, r in enumerate(r1c):
+        e = {'tag': None, 'text': None, 'include': None}
+        if 'tag' in r.meta and k % 2 == 0:
+            del r.meta['tag']
+            e['tag'] = '<absent>'
+        elif k % 3 == 0:
+            r.meta['tag'] = ['edited tag']
+            e['tag'] = ['edited tag']
+        if hasattr(r, 'text') and 'text' in r._params:
+            r.text = 'edited text'
+            e['text'] = 'edited text'
+        elif 'text' in r.meta and k % 2 == 1:
+            r.meta.pop('text')
+            e['text'] = '<absent>'
+        if k % 4 == 1:
+            inc = not bool(r.meta.get('include', True))
+            r.meta['include'] = inc
+            e['include'] = inc
+        expect.append(e)
+    _STAGE[0] = 'serialize'
+    s3, _w3 = _ser(r1c, 'regions', pe)
+    _STAGE[0] = 'parse'
+    r3 = _parse(s3)
+    _STAGE[0] = 'compare'
+    if obs.check(len(r3) == len(r1c), 'edited-parse-region-count', f'{len(r1c)} edited regions written, {len(r3)} read back', 'edited-parse'):
+        for e, a, b in zip(expect, r1c, r3):
+            if e['tag'] is not None:
+                got = b.meta.get('tag', '<absent>')
+                obs.check(got == e['tag'], 'edited-parsed-region-writes-stale-meta:tag',
+                          f'{type(a).__name__}: tags edited to {e["tag"]!r} after parsing, serialise -> parse gives {got!r}', 'edited-parse')
+            if e['text'] is not None:
+                got = b.text if (hasattr(b, 'text') and 'text' in b._params) else b.meta.get('text', '<absent>')
+                obs.check(got == e['text'], 'edited-parsed-region-writes-stale-meta:text',
+                          f'{type(a).__name__}: text edited to {e["text"]!r} after parsing, serialise -> parse gives {got!r}', 'edited-parse')
+            if e['include'] is not None:
+                got = bool(b.meta.get('include', True))
+                obs.check(got == e['include'], 'edited-parsed-region-writes-stale-meta:include',
+                          f'{type(a).__name__}: include edited to {e["include"]!r} after parsing, serialise -> parse gives {got!r}', 'edited-parse')
     return s1, r1b, len(w1)          # the unedited parse
 
 
